@@ -1,3 +1,35 @@
 // Kani harnesses mounted into crates/rip-tools/src/builtins/mod.rs (cfg(kani) only).
 #![allow(unused_imports, dead_code)]
 use super::*;
+include!("/verif/harness/common.rs");
+
+// C13 -- the file tools' lexical resolver: Ok(p) only for strings that are not absolute and contain no `..` segment.
+macro_rules! c13_resolve {
+    ($name:ident, $len:expr, $unwind:expr) => {
+        #[kani::proof]
+        #[kani::unwind($unwind)]
+        #[kani::stub(std::fmt::format, stub_fmt_format)]
+        fn $name() {
+            let b = sym_path_bytes::<$len>();
+            let raw = unsafe { core::str::from_utf8_unchecked(&b) };
+            let root = Path::new("/r");
+            let r = resolve_path(root, raw);
+            let esc = path_escapes(&b);
+            kani::cover!(r.is_ok(), "a path is accepted");
+            kani::cover!(esc, "an escaping path is generated");
+            if esc {
+                assert!(r.is_err(), "file-tool resolver accepted an absolute path or a path with a `..` segment");
+            }
+            core::mem::forget(r);
+        }
+    };
+}
+c13_resolve!(c13_tools_resolve_len2, 2, 6);
+c13_resolve!(c13_tools_resolve_len3, 3, 7);
+c13_resolve!(c13t_tools_resolve_len5, 5, 9);
+
+#[kani::proof]
+fn c00_setup_probe() {
+    let x: u8 = kani::any();
+    assert!(x as u16 <= 255);
+}
